@@ -83,6 +83,21 @@ ROUND2 = {
  'C19': ' Round 2: bodies beyond the request limit (must be refused in the same way whatever the framing - found defect 15), a complete call followed by padding beyond the limit, leading whitespace of 100-140 bytes cut into several chunks.',
 }
 
+# additions of round 3 (appended after ROUND2)
+ROUND3 = {
+ 'C01': ' Round 3: direct HTTP calls with the body streamed in two frames without Content-Length; a keep-alive connection whose requests arrive unfragmented must keep serving after every reply.',
+ 'C03': ' Round 3: notifications packed into batch replies, subscription buffers of 1 / 2, handles dropped mid-run, close notifications crossing an unsubscribe, subscription ids handed out again at once.',
+ 'C04': ' Round 3: subscription ids dealt again after a successful unsubscribe (items attributed by unique payload), handlers that retry with the message a timed-out / full send returns.',
+ 'C05': ' Round 3: the server closes a subscription and deals its id to a new one before the application drops the old, ended handle (found defect 16); same for a notification handler registered again after lag removal.',
+ 'C06': ' Round 3: subscription ids dealt again after a successful unsubscribe.',
+ 'C07': ' Round 3: buffered bodies of known size without a Content-Length header; with server pings on a peer that never pongs stays alive through its messages, the refused oversized one included.',
+ 'C08': ' Round 3: HTTP over a connection (low-level HTTP entry point), tiny limits (38-40 bytes) with an unsubscribe reply at the limit.',
+ 'C09': ' Round 3: an on_disconnect() watcher that has been waiting since before the failure must see the same cause.',
+ 'C10': ' Round 3: subscribe calls whose handler accepts late (possibly after the stop, under back-pressure) must be answered; never-ending calls whose peer sends one more frame after the stop and then leaves must not keep stopped() from resolving.',
+ 'C11': ' Round 3: aborted HTTP calls whose handler never ends (the slot must come back because the client left).',
+ 'C19': ' Round 3: a service with the GET proxy layer: HEAD / OPTIONS / TRACE / PUT / DELETE / PATCH stay 405 and reach no handler on mapped paths too.',
+}
+
 NA = {
  'C13': 'method registry: RpcModule mutation needs &mut self, histories are sequential; no schedule, clock, I/O or fault can influence the outcome - not a simulation target (plain model-based property testing would decide it)',
  'C14': 'host filter: the decision is a pure function of (allow-list, Host header, URI); nothing for a scheduler or fault injector to vary',
@@ -125,7 +140,7 @@ def main():
           'evidence_file': f'/verif/evidence/{pid}.json',
           'replay_cmd_template': './check replay {path}',
           'engine': engine,
-          'level_claimed': {'category': level, 'text': text + ROUND2.get(pid, ''), 'design_ref': ref},
+          'level_claimed': {'category': level, 'text': text + ROUND2.get(pid, '') + ROUND3.get(pid, ''), 'design_ref': ref},
           'level_note': note,
           'technique': tech,
         })
